@@ -668,9 +668,32 @@ func init() {
 			v := p.newNondet(p.ndName(th, args[0]), 64)
 			n := args[1].(*Term)
 			p.assume(Cmp(OpUlt, v, n))
+			if n.Op == OpConst && n.Val <= 256 {
+				return intV(int64(p.concretizeN(v, int(n.Val))))
+			}
 			return intV(int64(p.concretize(v)))
 		},
+		// nondetChoiceStr(name, alts...): a string from a finite alphabet; equality
+		// tests are decided on the selector without forking.
+		"nondetChoiceStr": func(th *Thread, fr *frame, fn *ssa.Function, args []Value) Value {
+			p := th.p
+			alts := args[1].([]Value)
+			if len(alts) == 0 {
+				p.stop("infeasible")
+			}
+			sel := p.newNondet(p.ndName(th, args[0]), 8)
+			p.assume(Cmp(OpUlt, sel, BV(8, uint64(len(alts)))))
+			u := UStr{Sel: sel}
+			for _, a := range alts {
+				u.Alt = append(u.Alt, a.(Str).String())
+			}
+			if len(alts) == 1 {
+				return Str{S: u.Alt[0]}
+			}
+			return u
+		},
 		"verifAssume": func(th *Thread, fr *frame, fn *ssa.Function, args []Value) Value {
+			th.p.flushAsserts() // assumptions are not retroactive
 			if !th.p.branch(args[0].(*Term)) {
 				th.p.stop("assume-false")
 			}
@@ -678,6 +701,7 @@ func init() {
 		},
 		"verifFail": func(th *Thread, fr *frame, fn *ssa.Function, args []Value) Value {
 			id := args[0].(Str).String()
+			th.p.flushAsserts()
 			th.p.logf("FAIL %s", id)
 			th.p.fail("assert", id, "")
 			return nil
@@ -687,6 +711,7 @@ func init() {
 			return nil
 		},
 		"verifStop": func(th *Thread, fr *frame, fn *ssa.Function, args []Value) Value {
+			th.p.flushAsserts()
 			th.p.stop("stop")
 			return nil
 		},
@@ -733,19 +758,12 @@ func init() {
 			}
 			id := args[1].(Str).String()
 			p := th.p
-			if p.violation("assert", id, "", Not(c)) {
-				p.logf("FAIL %s", id)
-				if c.IsFalse() {
-					p.stop("violation:" + id)
-				}
-			}
 			if c.IsFalse() {
-				p.stop("infeasible")
+				p.flushAsserts()
+				p.logf("FAIL %s", id)
+				p.fail("assert", id, "")
 			}
-			p.assume(c)
-			if k := c.Key(); k != "" && c.Op != OpNot {
-				p.known[k] = true
-			}
+			p.pending = append(p.pending, pendAssert{c, id})
 			return nil
 		},
 		// verifCoverIf(cond, id): reachability witness without forking.
@@ -761,8 +779,12 @@ func init() {
 					return nil
 				}
 			}
+			if p.w.coverSeen[id] {
+				return nil // already witnessed by this worker: no need to ask again
+			}
 			if c.IsTrue() || p.w.solver.CheckWith(c) == Sat {
 				p.covers = append(p.covers, id)
+				p.w.coverSeen[id] = true
 			}
 			return nil
 		},
